@@ -13,7 +13,8 @@ std::string key_of(Plan const& p)
 void gen_dists(Rng& r, Plan& p, int count, bool probe)
 {
     static char const* const names[] = {"name", "", " ", "  lead", "trail  ", "a b c", "#hash", "x,y;z=1", "d\tt",
-        "0", "1 2 3"};
+        "0", "1 2 3", "d\\sigma/dE_\\nu [pb/GeV]", "a\\nb", "back\\\\slash\\", "quo\"te's", "100%d %s", "caf\xc3\xa9",
+        "\\", "e+00 1.5"};
     p.dists.clear();
     for (int i = 0; i != count; ++i)
     {
@@ -53,6 +54,13 @@ void gen_dists(Rng& r, Plan& p, int count, bool probe)
         d.proj = probe ? 2 : static_cast<int>(r.below(2));
         p.dists.push_back(d);
     }
+}
+
+int tiny_exponent(Rng& r, int nt)
+{
+    if (nt == NT_F) return -(126 + static_cast<int>(r.below(22)));
+    if (nt == NT_D) return -(1022 + static_cast<int>(r.below(50)));
+    return -(16382 + static_cast<int>(r.below(60)));
 }
 
 void gen_world(Rng& r, Plan& p, GenOpts const& o)
@@ -116,6 +124,7 @@ void gen_world(Rng& r, Plan& p, GenOpts const& o)
     p.fseed = r.next();
     p.fq = static_cast<u64>(r.unit() * r.unit() * 4294967296.0);
     p.fmag = static_cast<int>(r.below(9)) - 4;
+    if (o.allow_tiny && r.chance(0.03)) p.fmag = tiny_exponent(r, p.nt);
     p.askw = static_cast<int>(r.below(3));
     p.mseed = r.next();
     p.jexp = static_cast<int>(r.below(13)) - 6;
